@@ -61,6 +61,10 @@ def prepare(release=False):
     gen_coq.gen_reflect(facts["reflect"], facts["builder"], "ReflectData", "rspirv/grammar/reflect.rs, rspirv/dr/build/*.rs via rs2coq")
     gen_coq.gen_ref_classes(load_ref("opclass.json"), "RefClasses")
     gen_coq.gen_parse(facts["operand"], facts["engine"], "ParseData", "rspirv/binary/autogen_{parse,decode}_operand.rs, assemble.rs, dr/autogen_operand.rs via rs2coq")
+    rp = load_ref("params.json")
+    gen_coq.gen_parse({"decode": rp["decode"], "parse": {"arms": rp["arms"], "args": rp["args"]},
+                       "assemble": {"operand_arms": []}, "variants": rp["variants"]}, {"storage_index_type": "u32"},
+                      "RefParams", "ref/params.json")
     gen_coq.gen_traverse(facts["traverse"], "TraverseData", "rspirv/dr/constructs.rs, rspirv/binary/assemble.rs via rs2coq")
     if p.dump_spirv is not None:
         gen_coq.gen_spirv_dump(p.dump_spirv, "DumpSpirv")
